@@ -1,12 +1,343 @@
-//! C03 — stub (not built yet).
+//! C03 — each yielded IVP point is a step of the advertised numerical method.
+//! Every consecutive pair of every path is validated against reference formulas transcribed from
+//! the literature (refmodel/schemes.rs), using the *observed* step length, so the check is
+//! independent of the step-size policy.
+
+use crate::gen::ivp::*;
+use crate::ivpdrv::*;
+use crate::json::J;
+use crate::refmodel::schemes::*;
 use crate::report::*;
+use crate::rng::{CaseHash, Rng};
+
+const EPS: f64 = f64::EPSILON;
+/// agreement with a one-step reference formula "to rounding": 1e-13 (1+|y|) plus the effect of the
+/// rounding of the observed step length h = t_i - t_{i-1} (8 eps |t| |f|). Observed <= 1.5e-15.
+const ONE_STEP_TOL: f64 = 1e-13;
+/// PEC-vs-PECE slack of the Adams corrector value, in units of L h^2 tol: the implementation stores
+/// f at the predictor, the reference evaluates f at the yielded points; with every accepted
+/// estimate <= tol each stored derivative is off by <= L (270/19) tol h, which enters the corrector
+/// through its history weights (sum 1.44 -> 20.4 units) and through the predictor (sum of AB
+/// weights 6.67, times L h 251/720 -> 33 L h units). Frozen at about 1.5x that analysis.
+const ADAMS_SLACK_UNITS: f64 = 30.0;
+const ADAMS_SLACK_UNITS_LH: f64 = 50.0;
+/// factor on L h in the Adams estimate bound tol (1 + k L h) (observed estimate <= 1.013 tol)
+const ADAMS_EST_LH: f64 = 10.0;
+/// BDF residual bound is (1 + beta h L) tol, deliberately with constant 1 (DESIGN.md C03)
+const BDF_RES_UNITS: f64 = 1.0;
+/// equal spacing of the history, relative
+const EQ_SPACING: f64 = 1e-9;
 
 pub fn meta() -> CheckMeta {
-    CheckMeta { id: "C03", level: "exploration", rule: "stub".into(), assumptions: vec![], exhaustive: false, stuck_is_violation: false }
+    CheckMeta {
+        id: "C03",
+        level: "exploration",
+        rule: "cases: 7 solvers x G-generic non-linear non-autonomous right-hand sides (dim 1-4) x random configurations with tol <= 1e-6; every point of every path is classified as (rk) one step of the published one-step scheme from the previous point with the observed step, or (ms) the multistep formula over the equally spaced preceding points; a point in neither class is a violation. A solve is non-trivial when at least one point was validated by each branch available to its solver; distinct = hash of (solver, problem, configuration)".into(),
+        assumptions: vec![
+            "one-step formulas must be reproduced to 1e-12 (1+|y|); Adams corrector values within 100 L h^2 tol + floor of the PECE reference (PEC/PECE difference); BDF residual within (1+beta h L) tol + floor".into(),
+            "solves that end in an Err item are judged on their prefix (their failure is C05's statement)".into(),
+        ],
+        exhaustive: false,
+        stuck_is_violation: false,
+    }
 }
-pub fn stages(_ctx: &Ctx) -> Vec<Stage> {
-    vec![]
+
+fn floor(y: &[f64]) -> f64 {
+    64.0 * EPS * (1.0 + norm2(y))
 }
-pub fn thresholds(_ctx: &Ctx, _rep: &Report) -> Vec<Threshold> {
-    vec![Threshold { what: "check not built".into(), required: 1.0, observed: 0.0 }]
+
+/// allowed distance from a one-step formula, and that distance in units of (1+|y|)
+fn one_step_tol(rhs: &dyn Rhs<f64>, tp: f64, yp: &[f64], t: f64, y: &[f64]) -> f64 {
+    let fnorm = norm2(&eval_f(rhs, tp, yp));
+    ONE_STEP_TOL * (1.0 + norm2(y)) + 8.0 * EPS * t.abs().max(tp.abs()) * fnorm
+}
+
+#[derive(Default)]
+struct Tally {
+    rk: u64,
+    ms: u64,
+    both: u64,
+    euler: u64,
+}
+
+pub fn judge(rep: &mut Report, solver: Solver, cfg: &Cfg, rhs: &dyn Rhs<f64>, lip: f64, y0: &[f64], out: &Outcome<f64>, case: &dyn Fn() -> J) -> Option<(u64, u64)> {
+    let sname = solver.name();
+    if let Some((m, l)) = &out.panic {
+        rep.violation(&format!("{}/panic", sname), case(), format!("solver panicked: '{}' at {}", m, l));
+        return None;
+    }
+    if out.build_err.is_some() {
+        rep.violation(&format!("{}/valid-config-rejected", sname), case(), format!("{:?}", out.build_err));
+        return None;
+    }
+    let mut pts: Vec<(f64, Vec<f64>)> = vec![];
+    if solver != Solver::Euler {
+        pts.push((cfg.t0, y0.to_vec()));
+    }
+    pts.extend(out.ok_points());
+    let mut tally = Tally::default();
+    let tol = cfg.tol;
+    // First-trial decision (policy-free: the first trial step is (dt_min+dt_max)/2, clipped to the
+    // interval). If the published scheme's estimate for that trial is clearly within tolerance
+    // (<= 0.5 tol), the trial must have been accepted, which is observable through the time of the
+    // first yielded point; if it clearly exceeds the tolerance it must have been rejected (the
+    // latter is also covered by the per-point estimate check below).
+    let ended_in_err_without_points = pts.len() < 2 && out.n_err() > 0 && !out.budget_hit;
+    if (pts.len() >= 2 || ended_in_err_without_points) && (solver.is_rk() || solver.is_adams()) {
+        let dt0 = cfg.dt0();
+        let span = cfg.span();
+        // NaN when the solve reported an error before yielding anything: then no trial was accepted
+        let first_t = if pts.len() >= 2 { pts[1].0 } else { f64::NAN };
+        if solver.is_rk() {
+            let h = if cfg.t0 + dt0 >= cfg.t1 { span } else { dt0 };
+            let (yr, er) = if solver == Solver::RK45 { rkf45_step(rhs, cfg.t0, y0, h) } else { bs23_step(rhs, cfg.t0, y0, h) };
+            let expect_t = if cfg.t0 + dt0 >= cfg.t1 { cfg.t1 } else { cfg.t0 + h };
+            let clear_accept = er + floor(&yr) / h <= 0.5 * tol;
+            if clear_accept {
+                rep.count(&format!("{}/first_trial_clearly_acceptable", sname), 1);
+                if first_t != expect_t {
+                    rep.violation(
+                        &format!("{}/first-trial-step-within-tolerance-was-rejected", sname),
+                        case(),
+                        format!("the first trial step h={:e} has published-scheme estimate {:e} <= 0.5 tol ({:e}) but the first yielded time is {:.17e}, not {:.17e}", h, er, tol, first_t, expect_t),
+                    );
+                    return None;
+                }
+            } else if er - floor(&yr) / h > 2.0 * tol {
+                rep.count(&format!("{}/first_trial_clearly_unacceptable", sname), 1);
+            }
+        } else {
+            // Adams: RK4 start-up with dt0, then the first predictor-corrector step
+            let k = solver.history();
+            if cfg.t0 + dt0 * (k as f64 + 1.0) * 1.000001 < cfg.t1 {
+                let mut hist: Vec<(f64, Vec<f64>)> = vec![(cfg.t0, y0.to_vec())];
+                for j in 0..k - 1 {
+                    let (tj, yj) = hist[0].clone();
+                    let _ = j;
+                    hist.insert(0, (tj + dt0, rk4_step(rhs, tj, &yj, dt0)));
+                }
+                // library start-up takes `history` RK4 steps (O-1), i.e. k points after t0
+                let (tj, yj) = hist[0].clone();
+                hist.insert(0, (tj + dt0, rk4_step(rhs, tj, &yj, dt0)));
+                let (pred, corr) = adams_pc(rhs, &hist, dt0, k);
+                let est = (19.0 / 270.0) * dist2(&corr, &pred) / dt0;
+                if est + floor(&corr) / dt0 <= 0.5 * tol {
+                    rep.count(&format!("{}/first_trial_clearly_acceptable", sname), 1);
+                    if !((first_t - (cfg.t0 + dt0)).abs() <= 4.0 * EPS * cfg.t0.abs().max(first_t.abs())) {
+                        rep.violation(
+                            &format!("{}/first-trial-step-within-tolerance-was-rejected", sname),
+                            case(),
+                            format!("start-up with dt0={:e} followed by a predictor-corrector step whose estimate {:e} is <= 0.5 tol ({:e}), but the first yielded time is {:.17e}, not t0+dt0={:.17e}", dt0, est, tol, first_t, cfg.t0 + dt0),
+                        );
+                        return None;
+                    }
+                }
+            }
+        }
+    }
+    for i in 1..pts.len() {
+        let (tp, yp) = (&pts[i - 1].0, &pts[i - 1].1);
+        let (t, y) = (&pts[i].0, &pts[i].1);
+        let h = *t - *tp;
+        if !(h > 0.0) || y.len() != yp.len() || !y.iter().all(|v| v.is_finite()) {
+            // ordering / dimension / finiteness are C01's statement
+            rep.inconclusive("malformed-path(C01)");
+            return None;
+        }
+        let fl = floor(y);
+        match solver {
+            Solver::Euler => {
+                let yr = euler_step(rhs, *tp, yp, h);
+                let d = dist2(y, &yr) / (1.0 + norm2(y));
+                rep.max("Euler/one_step_dev", d);
+                if !(dist2(y, &yr) <= one_step_tol(rhs, *tp, yp, *t, y)) {
+                    rep.violation("Euler/not-an-euler-step", case(), format!("item {} at t={:e}: |y - (y_prev + h f)| = {:e} (1+|y|), h={:e}", i, t, d, h));
+                    return None;
+                }
+                tally.euler += 1;
+            }
+            Solver::RK45 | Solver::RK23 => {
+                let (yr, er) = if solver == Solver::RK45 { rkf45_step(rhs, *tp, yp, h) } else { bs23_step(rhs, *tp, yp, h) };
+                let d = dist2(y, &yr) / (1.0 + norm2(y));
+                rep.max(&format!("{}/one_step_dev", sname), d);
+                if !(dist2(y, &yr) <= one_step_tol(rhs, *tp, yp, *t, y)) {
+                    rep.violation(
+                        &format!("{}/not-a-step-of-the-scheme", sname),
+                        case(),
+                        format!("point {} at t={:.6e}, h={:.3e}: distance from the published scheme's step is {:e} (1+|y|)", i, t, h, d),
+                    );
+                    return None;
+                }
+                let ratio = (er - fl / h).max(0.0) / tol;
+                rep.max(&format!("{}/estimate_over_tol", sname), ratio);
+                if !(ratio <= 1.0 + 1e-6) {
+                    rep.violation(
+                        &format!("{}/accepted-step-estimate-exceeds-tolerance", sname),
+                        case(),
+                        format!("point {} at t={:.6e}, h={:.3e}: embedded error estimate per unit step {:e} exceeds tol {:e} (ratio {:.4})", i, t, h, er, tol, ratio),
+                    );
+                    return None;
+                }
+                tally.rk += 1;
+            }
+            _ => {
+                let hist_n = solver.history();
+                // (a) RK4 starting / final step, to rounding
+                let yr = rk4_step(rhs, *tp, yp, h);
+                let d = dist2(y, &yr) / (1.0 + norm2(y));
+                let a_ok = dist2(y, &yr) <= one_step_tol(rhs, *tp, yp, *t, y);
+                if a_ok {
+                    rep.max(&format!("{}/rk4_dev", sname), d);
+                }
+                // (b) multistep branch
+                let mut ms_detail = String::from("history not equally spaced or too short");
+                let mut ms_ok = false;
+                if i >= hist_n {
+                    let eq = (1..hist_n).all(|j| {
+                        let hj = pts[i - j].0 - pts[i - j - 1].0;
+                        (hj - h).abs() <= EQ_SPACING * h.abs() + 8.0 * EPS * t.abs()
+                    });
+                    if eq {
+                        let hist: Vec<(f64, Vec<f64>)> = (1..=hist_n).map(|j| pts[i - j].clone()).collect();
+                        if solver.is_adams() {
+                            let (pred, corr) = adams_pc(rhs, &hist, h, hist_n);
+                            let slack = (ADAMS_SLACK_UNITS + ADAMS_SLACK_UNITS_LH * lip * h) * lip * h * h * tol + fl;
+                            let dev = dist2(y, &corr);
+                            let est = (19.0 / 270.0) * dist2(&corr, &pred) / h;
+                            let est_bound = tol * (1.0 + ADAMS_EST_LH * lip * h) + fl / h;
+                            if dev <= slack {
+                                if !a_ok {
+                                    rep.max(&format!("{}/ms_dev_over_slack", sname), (dev - fl).max(0.0) / (slack - fl));
+                                }
+                                if !a_ok {
+                                    rep.max(&format!("{}/ms_estimate_over_tol", sname), est / tol);
+                                }
+                                if !a_ok && !(est <= est_bound) {
+                                    rep.violation(
+                                        &format!("{}/accepted-step-estimate-exceeds-tolerance", sname),
+                                        case(),
+                                        format!("point {} at t={:.6e}, h={:.3e}: predictor-corrector estimate {:e} exceeds tol {:e} (bound {:e})", i, t, h, est, tol, est_bound),
+                                    );
+                                    return None;
+                                }
+                                ms_ok = true;
+                            } else {
+                                ms_detail = format!("corrector deviation {:e} > slack {:e}", dev, slack);
+                            }
+                        } else {
+                            let k = hist_n;
+                            let (beta, _) = bdf_coeffs(k);
+                            let res = bdf_residual(rhs, k, *t, y, &hist, h);
+                            let unit = (1.0 + beta * h * lip) * tol + fl;
+                            if res <= BDF_RES_UNITS * unit {
+                                if !a_ok {
+                                    rep.max(&format!("{}/ms_residual_units", sname), res / unit);
+                                }
+                                ms_ok = true;
+                            } else {
+                                ms_detail = format!("BDF{} residual {:e} > {:e}", k, res, BDF_RES_UNITS * unit);
+                            }
+                        }
+                    }
+                }
+                if ms_ok && a_ok {
+                    // at small h an RK4 step and the multistep formula agree to rounding: the point is
+                    // valid either way, but it does not show which formula produced it
+                    tally.both += 1;
+                } else if ms_ok {
+                    tally.ms += 1;
+                } else if a_ok {
+                    tally.rk += 1;
+                } else {
+                    rep.violation(
+                        &format!("{}/point-is-neither-rk4-nor-multistep", sname),
+                        case(),
+                        format!("point {} at t={:.6e}, h={:.3e}: distance from an RK4 step {:e} (1+|y|); multistep branch: {}", i, t, h, d, ms_detail),
+                    );
+                    return None;
+                }
+            }
+        }
+    }
+    rep.count(&format!("{}/points_rk_branch", sname), (tally.rk + tally.euler) as i64);
+    rep.count(&format!("{}/points_ms_branch", sname), tally.ms as i64);
+    rep.count(&format!("{}/points_ambiguous_both", sname), tally.both as i64);
+    Some((tally.rk + tally.euler, tally.ms))
+}
+
+fn run_case(rep: &mut Report, solver: Solver, prob: &GenericProblem, cfg: &Cfg, mode: DimMode) {
+    let opts = Opts { budget: 3_000_000, max_items: 4_000, mode, ..Default::default() };
+    let out = solve_real(solver, cfg, &prob.y0, prob, &opts);
+    rep.eval();
+    rep.count(&format!("{}/solves", solver.name()), 1);
+    let case = || J::obj().set("solver", solver.name()).set("mode", format!("{:?}", mode)).set("cfg", cfg.to_json()).set("problem", prob.to_json());
+    if out.n_err() > 0 || out.budget_hit {
+        rep.inconclusive("err-or-budget(C05)");
+        rep.count(&format!("{}/err_solves", solver.name()), 1);
+    }
+    if let Some((rk, ms)) = judge(rep, solver, cfg, prob, prob.lip, &prob.y0, &out, &case) {
+        let nt = if solver.is_multistep() { rk > 0 && ms > 0 } else { rk > 0 };
+        if nt {
+            let h = CaseHash::new("c03").u(solver.idx() as u64).fs(&prob.a).fs(&prob.b).fs(&prob.y0).f(cfg.t0).f(cfg.t1).f(cfg.dt_max).f(cfg.tol);
+            rep.nontrivial(h.0);
+            if rep.wants_sample() {
+                rep.sample(case().set("points_rk_branch", rk).set("points_multistep_branch", ms).set("derivative_calls", out.calls));
+            }
+        }
+    }
+}
+
+pub fn stages(ctx: &Ctx) -> Vec<Stage> {
+    let seed = ctx.seed;
+    let mut st = vec![];
+    // anchors: fixed problems, all solvers
+    st.push(Stage::new("anchors", 7 * 8, move |i, rep| {
+        let solver = Solver::ALL[(i % 7) as usize];
+        let k = i / 7;
+        let mut rng = Rng::for_case(777, "c03-anchor", k);
+        let prob = GenericProblem::gen(&mut rng, 1 + (k as usize) % 4);
+        let tol = [1e-6, 1e-8, 1e-7, 1e-9][(k % 4) as usize];
+        let dt_max = if solver == Solver::Euler { 0.01 } else { dtmax_for(solver, prob.lip, tol, 0.8) };
+        let cfg = Cfg { t0: 0.25, t1: 0.25 + dt_max * 60.0, dt_min: dt_max * 1e-7, dt_max, tol };
+        run_case(rep, solver, &prob, &cfg, if k % 2 == 0 { DimMode::Static } else { DimMode::Dynamic });
+    }));
+    let n = ctx.tier.pick(7_000, 2_100_000);
+    st.push(Stage::new("random", n, move |i, rep| {
+        let mut rng = Rng::for_case(seed, "c03-random", i);
+        let solver = Solver::ALL[(i % 7) as usize];
+        let n = 1 + rng.below(4);
+        let prob = GenericProblem::gen(&mut rng, n);
+        let mut cfg = gen_cfg(&mut rng, solver, prob.lip, (-10.0, -6.0), (0.3, 2.0));
+        let p_big = if solver.is_multistep() { 0.7 } else { 0.25 };
+        if rng.chance(p_big) {
+            // a larger cap than the accuracy rule: the estimator, not the cap, limits the steps, so
+            // multistep solvers stay in their multistep formula and RK solvers reject trials
+            // (kept at L dt_max <= 1.5 for Adams; BDF stays near the accuracy rule: its quasi-Newton
+            // solve with a finite-difference Jacobian of width dt is only meant for moderate h L)
+            let f = if solver.is_adams() { rng.r(2.0, 12.0).min(1.5 / (prob.lip * cfg.dt_max)).max(1.0) } else if solver.is_bdf() { rng.r(1.0, 1.5) } else { rng.r(1.5, 4.0) };
+            cfg.dt_max *= f;
+            cfg.t1 = cfg.t0 + cfg.dt_max * rng.log10(0.3, 1.7);
+        }
+        let mode = if rng.bool() { DimMode::Static } else { DimMode::Dynamic };
+        run_case(rep, solver, &prob, &cfg, mode);
+    }));
+    st
+}
+
+pub fn thresholds(ctx: &Ctx, rep: &Report) -> Vec<Threshold> {
+    let mut t = vec![];
+    for s in [Solver::Adams5, Solver::Adams3, Solver::BDF6, Solver::BDF2] {
+        let rk = rep.counter(&format!("{}/points_rk_branch", s.name())) as f64;
+        let ms = rep.counter(&format!("{}/points_ms_branch", s.name())) as f64;
+        t.push(Threshold { what: format!("{}: share of points validated by the multistep branch only", s.name()), required: if s.is_adams() { 0.2 } else { 0.05 }, observed: ms / (rk + ms).max(1.0) });
+        t.push(Threshold { what: format!("{}: points validated by the multistep branch", s.name()), required: ctx.tier.pick(500.0, 100_000.0), observed: ms });
+        t.push(Threshold { what: format!("{}: points validated by the RK4 branch", s.name()), required: ctx.tier.pick(500.0, 100_000.0), observed: rk });
+    }
+    for s in [Solver::Euler, Solver::RK45, Solver::RK23] {
+        t.push(Threshold { what: format!("{}: points validated", s.name()), required: ctx.tier.pick(2_000.0, 400_000.0), observed: rep.counter(&format!("{}/points_rk_branch", s.name())) as f64 });
+    }
+    let solves: i64 = Solver::ALL.iter().map(|s| rep.counter(&format!("{}/solves", s.name()))).sum();
+    let errs: i64 = Solver::ALL.iter().map(|s| rep.counter(&format!("{}/err_solves", s.name()))).sum();
+    t.push(Threshold { what: "fraction of solves without Err item".into(), required: 0.9, observed: 1.0 - errs as f64 / solves.max(1) as f64 });
+    t
 }
